@@ -95,5 +95,7 @@ void set_abort_handler(void (*fn)(int verdict, const char* msg));
 
 void probe(const char* name);
 void set_livelock_limit(uint64_t steps);
+// writes the switches taken so far ("step rank" per line); async-signal-unsafe but used only on the way to _exit
+void dump_decisions(const char* path);
 
 }  // namespace sim
